@@ -318,6 +318,15 @@ func (fr *Frame) cutLoop(li *loopInfo, st *State) {
 		T, _ := fr.envAt(st).resolveType(g.Sort)
 		li.ghosts[g.Name] = Term{n, k, T}
 	}
+	// From here on the state is "some iteration": its path condition gets a fresh Boolean so that the invariants assumed
+	// for it are not available to the obligations on the entry edges. (Without it the entry-edge condition implies the
+	// head's condition, and for state the loop does not modify the head's terms ARE the entry's terms: inv-init then
+	// follows from the assumption it is meant to justify — measured: cookieSignature keyed with the wrong argument verified.)
+	if len(invs) > 0 {
+		cut := fe.fresh(fr.prefix + "cut")
+		fe.declConst(cut, SBool)
+		st.alive = fe.define(fe.fresh(fr.prefix+"alive"), SBool, sAnd(st.alive, cut))
+	}
 	// assume invariants
 	for _, inv := range invs {
 		env := fr.envAt(st)
@@ -912,6 +921,16 @@ func (fe *FuncEnc) newRef(base string) string {
 	}
 	for _, p := range fe.seenRefs {
 		fe.assume(fmt.Sprintf("(not (= %s %s))", n, p))
+	}
+	// a new object is not an element of any slice of references that exists at this moment
+	if _, ok := fe.heapSorts["HS_Int"]; ok && fe.curState != nil {
+		hv := fe.hget(fe.curState, "HS_Int")
+		fe.pre.decl(fmt.Sprintf("(declare-fun at_Int (%s Slice Int) Int)", fe.heapSorts["HS_Int"]))
+		g := fe.curGuard
+		if g == "" {
+			g = "true"
+		}
+		fe.assume(fmt.Sprintf("(forall ((qs Slice) (qi Int)) (! (=> %s (not (= (at_Int %s qs qi) %s))) :pattern ((at_Int %s qs qi))))", g, hv, n, hv))
 	}
 	fe.allocs = append(fe.allocs, n)
 	return n
